@@ -2307,3 +2307,138 @@ Proof.
   do 4 eexists. split; [vm_compute; reflexivity|]. split; [vm_compute; reflexivity|].
   split; [vm_compute; reflexivity|]. split; [reflexivity|]. split; [vm_compute; reflexivity|exact wf_g0].
 Qed.
+
+(* ------------------------------------------------------------------ attempts that overlap in time *)
+Lemma ov_remove_comm a b l : ov_remove a (ov_remove b l) = ov_remove b (ov_remove a l).
+Proof.
+  unfold ov_remove. induction l as [|x r IH]; [reflexivity|]. cbn [filter].
+  destruct (x =? b) eqn:Eb, (x =? a) eqn:Ea; cbn [negb filter]; rewrite ?Eb, ?Ea; cbn [negb]; rewrite ?IH; reflexivity.
+Qed.
+
+Lemma ov_mem_remove t b l : t <> b -> ov_mem t (ov_remove b l) = ov_mem t l.
+Proof.
+  intro H. unfold ov_mem, ov_remove. induction l as [|x r IH]; [reflexivity|]. cbn [filter existsb].
+  destruct (x =? b) eqn:Eb; cbn [negb existsb].
+  - apply N.eqb_eq in Eb. subst x. rewrite IH.
+    destruct (t =? b) eqn:E; [apply N.eqb_eq in E; contradiction|reflexivity].
+  - rewrite IH. reflexivity.
+Qed.
+
+Lemma ov_remove_snoc b l id : id <> b -> ov_remove b (l ++ [id]) = ov_remove b l ++ [id].
+Proof.
+  intro H. unfold ov_remove. rewrite filter_app. cbn [filter].
+  destruct (id =? b) eqn:E; [apply N.eqb_eq in E; contradiction|reflexivity].
+Qed.
+
+Lemma ov_remove_fresh b l : ~ In b l -> ov_remove b l = l.
+Proof.
+  unfold ov_remove. induction l as [|x r IH]; intro H; [reflexivity|]. cbn [filter].
+  destruct (x =? b) eqn:E.
+  - apply N.eqb_eq in E. subst x. exfalso. apply H. left. reflexivity.
+  - cbn [negb]. rewrite IH; [reflexivity|]. intro Hin. apply H. right. exact Hin.
+Qed.
+
+Lemma ov_remove_begin b l : ~ In b l -> ov_remove b (ov_begin l b) = l.
+Proof.
+  intro H. unfold ov_begin, ov_remove. rewrite filter_app. cbn [filter]. rewrite N.eqb_refl. cbn [negb].
+  rewrite app_nil_r. exact (ov_remove_fresh b l H).
+Qed.
+
+(* an attempt that does not mention B's marker does to the list with B's entry what it does to the list without *)
+Lemma ov_step_commutes b l o : ~ In b (ov_names o) ->
+  ov_remove b (ov_step l o) = ov_step (ov_remove b l) o.
+Proof.
+  destruct o as [op res]. unfold ov_names. cbn [fst]. intro H.
+  destruct op as [id|t id|t id|t]; destruct res as [|p]; cbn [ov_step]; try reflexivity.
+  - apply ov_remove_snoc. intro E. apply H. left. exact E.
+  - assert (Ht : t <> b) by (intro E; apply H; left; exact E).
+    assert (Hi : id <> b) by (intro E; apply H; right; left; exact E).
+    rewrite (ov_mem_remove t b l Ht). destruct (ov_mem t l); [|reflexivity].
+    rewrite ov_remove_comm, (ov_remove_snoc b l id Hi). reflexivity.
+  - assert (Ht : t <> b) by (intro E; apply H; left; exact E).
+    assert (Hi : id <> b) by (intro E; apply H; right; left; exact E).
+    rewrite (ov_mem_remove t b l Ht). destruct (ov_mem t l); [|reflexivity].
+    rewrite ov_remove_comm, (ov_remove_snoc b l id Hi). reflexivity.
+  - apply ov_remove_comm.
+Qed.
+
+Lemma ov_steps_commute b : forall os l, (forall o, In o os -> ~ In b (ov_names o)) ->
+  ov_remove b (ov_steps l os) = ov_steps (ov_remove b l) os.
+Proof.
+  induction os as [|o r IH]; intros l H; [reflexivity|].
+  unfold ov_steps in *. cbn [fold_left]. rewrite IH.
+  - rewrite ov_step_commutes; [reflexivity|]. apply H. left. reflexivity.
+  - intros o' Hin. apply H. right. exact Hin.
+Qed.
+
+(* FRAME for overlapping attempts: whatever attempts complete while B is held - loads, reloads that shift the list
+   in front of B's entry, refused reloads, stops - when B is refused the instance list is exactly what those
+   attempts alone make of it: B never happened *)
+Lemma overlap_refused_is_frame l b bid inner :
+  ~ In bid l -> (forall o, In o inner -> ~ In bid (ov_names o)) ->
+  ov_end (ov_steps (ov_begin l bid) inner) b bid false = ov_steps l inner.
+Proof.
+  intros Hf Hn. unfold ov_end. rewrite (ov_steps_commute bid inner _ Hn), (ov_remove_begin bid l Hf). reflexivity.
+Qed.
+
+(* in particular every instance the inner attempts left running is still listed, and B is not *)
+Lemma overlap_refused_keeps_running l b bid inner x :
+  ~ In bid l -> (forall o, In o inner -> ~ In bid (ov_names o)) ->
+  (In x (ov_end (ov_steps (ov_begin l bid) inner) b bid false) <-> In x (ov_steps l inner)) /\
+  ~ In bid (ov_end (ov_steps (ov_begin l bid) inner) b bid false).
+Proof.
+  intros Hf Hn. split.
+  - rewrite (overlap_refused_is_frame l b bid inner Hf Hn). reflexivity.
+  - unfold ov_end, ov_remove. intro Hin. apply filter_In in Hin as [_ Hc]. rewrite N.eqb_refl in Hc. discriminate.
+Qed.
+
+(* the clean-up by remembered position: the same as the search as long as nothing moved in front of B's entry -
+   every sequential history - ... *)
+Lemma remove_nth_app {A} (l : list A) x r : remove_nth (length l) (l ++ x :: r) = l ++ r.
+Proof. induction l as [|y l IH]; [reflexivity|]. cbn [length app remove_nth]. rewrite IH. reflexivity. Qed.
+
+Lemma overlap_slot_same_when_sequential l bid : ~ In bid l ->
+  ov_end_slot (ov_begin l bid) (length l) = ov_end (ov_begin l bid) OvBLoad bid false.
+Proof.
+  intro H. unfold ov_end_slot, ov_begin, ov_end. rewrite remove_nth_app, app_nil_r.
+  symmetry. exact (ov_remove_begin bid l H).
+Qed.
+
+(* ... and wrong as soon as a reload of a running instance completes while B is held: [A] -> [A;B] -> [B;A'],
+   position 1 is A': the RUNNING instance is dropped and the refused B stays listed *)
+Lemma overlap_slot_refuted :
+  exists l bid inner,
+    ~ In bid l /\ (forall o, In o inner -> ~ In bid (ov_names o)) /\
+    let l3 := ov_steps (ov_begin l bid) inner in
+    ov_steps l inner = [3] /\ ov_end_slot l3 (length l) = [bid] /\
+    ov_end l3 OvBLoad bid false = [3].
+Proof.
+  exists [1], 2, [(OvReload 1 3, 0)]. split; [|split].
+  - intros [E|[]]. discriminate.
+  - intros o [<-|[]]. cbn. intros [E|[E|[]]]; discriminate.
+  - vm_compute. repeat split; reflexivity.
+Qed.
+
+(* the event-hook registry along an overlap case *)
+Lemma ov_hooks_none_registered : forall (os : list (ovop * N * N)) h,
+  (forall o, In o os -> snd o = 0) -> ov_hooks_steps h os = h.
+Proof.
+  induction os as [|o r IH]; intros h H; [reflexivity|].
+  unfold ov_hooks_steps in *. cbn [fold_left].
+  assert (Ho : ov_hooks_step h o = h).
+  { pose proof (H o (or_introl eq_refl)) as E. destruct o as [[op res] n]. cbn [snd] in E. subst n.
+    destruct op, res; cbn [ov_hooks_step]; try reflexivity; apply N.add_0_r. }
+  rewrite Ho. apply IH. intros o' Hin. apply H. right. exact Hin.
+Qed.
+
+(* a refused B keeps the registered hooks as they were when no attempt completing meanwhile registers one ... *)
+Lemma overlap_hooks_partial h inner :
+  (forall o, In o inner -> snd o = 0) ->
+  ov_hooks_end h (ov_hooks_steps h inner) false = ov_hooks_steps h inner.
+Proof. intro H. unfold ov_hooks_end. rewrite (ov_hooks_none_registered inner h H). reflexivity. Qed.
+
+(* ... and loses the hooks of a load that completed while B was held otherwise: B puts back the copy of the
+   registry it took when it began *)
+Lemma overlap_hooks_refuted :
+  exists h inner, ov_hooks_steps h inner = 3 /\ ov_hooks_end h (ov_hooks_steps h inner) false = 1.
+Proof. exists 1, [(OvReload 1 3, 0, 2)]. vm_compute. split; reflexivity. Qed.
